@@ -68,3 +68,24 @@ def ddmin(lines, still_fails, keep_prefix=0, budget=200):
                 break
             n = min(n * 2, len(body))
     return head + body
+
+
+def violating_history(lines, run_impl, oracle, keep_prefix=0, budget=200, legal=None):
+    """When the correspondence with the model is broken on `lines`: does the implementation's OWN output on this
+    history contradict the property (independent oracle), possibly later than the first point where it differs from
+    the model?  run_impl(ls) -> (rc, out_lines, err); oracle(ls, out_lines) -> text|None.  Returns (minimised lines,
+    description) or None.  A crash / sanitizer abort of the implementation counts (rc != 0, not a timeout)."""
+    def why(ls):
+        if legal is not None and not legal(ls):
+            return None
+        rc, out, err = run_impl(ls)
+        if rc == -999:
+            return None
+        if rc != 0:
+            return "implementation aborted (sanitizer / assertion / signal %s): %s" % (rc, (err or "")[-800:])
+        return oracle(ls, out)
+    w = why(lines)
+    if not w:
+        return None
+    small = ddmin(lines, lambda ls: why(ls) is not None, keep_prefix=keep_prefix, budget=budget)
+    return small, (why(small) or w)
